@@ -16,6 +16,7 @@ name: llist_dup
 define: U_DUP, U_KIND_LIST, VL_MINN=1
 src: linked_list.c, obj.c
 tier: B
+native: self
 backend: cadical
 unwind: 8
 unwind_thorough: 12
@@ -27,6 +28,7 @@ name: llist_dup_empty
 define: U_DUP, U_KIND_LIST, VL_FIXN=0
 src: linked_list.c, obj.c
 tier: B
+native: self
 backend: cadical
 unwind: 8
 unwind_thorough: 12
@@ -38,6 +40,7 @@ name: llist_vec_dup
 define: U_DUP, U_KIND_VEC, VL_MINN=1
 src: linked_list.c, obj.c
 tier: B
+native: self
 backend: cadical
 unwind: 8
 unwind_thorough: 12
@@ -49,6 +52,7 @@ name: llist_vec_dup_empty
 define: U_DUP, U_KIND_VEC, VL_FIXN=0
 src: linked_list.c, obj.c
 tier: B
+native: self
 backend: cadical
 unwind: 8
 unwind_thorough: 12
@@ -60,6 +64,7 @@ name: llist_map_dup
 define: U_DUP, U_KIND_MAP, VL_MINN=1
 src: linked_list.c, objpair.c, obj.c
 tier: B
+native: self
 backend: cadical
 unwind: 8
 unwind_thorough: 12
@@ -73,6 +78,7 @@ name: llist_map_dup_empty
 define: U_DUP, U_KIND_MAP, VL_FIXN=0
 src: linked_list.c, objpair.c, obj.c
 tier: B
+native: self
 backend: cadical
 unwind: 8
 unwind_thorough: 12
@@ -85,6 +91,7 @@ name: llist_comp_null
 define: U_COMP_NULL, U_KIND_LIST, VL_DISPATCH_LLIST
 src: linked_list.c, obj.c
 tier: B
+native: self
 backend: cadical
 unwind: 8
 unwind_thorough: 12
@@ -96,6 +103,7 @@ name: llist_comp
 define: U_COMP, U_KIND_LIST, VL_DISPATCH_LLIST
 src: linked_list.c, obj.c
 tier: B
+native: self
 backend: cadical
 unwind: 8
 unwind_thorough: 12
@@ -126,21 +134,22 @@ funcs: spif_linked_list_comp
 #ifdef U_KIND_LIST
 # define CLS SPIF_LISTCLASS_VAR(linked_list)
 # define DUP spif_linked_list_dup
-# define BUILD(self, m) VL_BUILD(self, LT, IT, CLS, VL_SL, m, vl_pick_len(), vl_data_list)
+# define BUILD(self, m) do { VL_INPUTS(vin, a); VL_BUILD(self, LT, IT, CLS, VL_SL, m, vin, vl_data_list); } while (0)
 #endif
 #ifdef U_KIND_VEC
 # define CLS SPIF_VECTORCLASS_VAR(linked_list)
 # define DUP spif_linked_list_vector_dup
-# define BUILD(self, m) VL_BUILD(self, LT, IT, CLS, VL_SL, m, vl_pick_len(), vl_data_vec)
+# define BUILD(self, m) do { VL_INPUTS(vin, a); VL_BUILD(self, LT, IT, CLS, VL_SL, m, vin, vl_data_vec); } while (0)
 #endif
 #ifdef U_KIND_MAP
 # define CLS SPIF_MAPCLASS_VAR(linked_list)
 # define DUP spif_linked_list_map_dup
-# define BUILD(self, m) VL_BUILD_MAP(self, LT, IT, CLS, VL_SL, m, vl_pick_len())
+# define BUILD(self, m) do { VL_INPUTS(vin, a); VL_BUILD_MAP(self, LT, IT, CLS, VL_SL, m, vin); } while (0)
 vl_map_t m;
 #else
 vl_seq_t m, r;
 #endif
+vl_in_t vin;            /* the built container's inputs (VND: replayable natively) */
 int w_n, w_del_copy;
 
 #ifdef U_DUP
@@ -190,7 +199,7 @@ void harness(void)
         VL_CHECK(self, IT, VL_SL, m, "llist dup (original)");
 # endif
         /* independence: delete one of the two with the real del, the other must be intact */
-        if (nondet_bool()) {
+        if (VND(bool, c1)) {
             w_del_copy = 1;
             spif_linked_list_del(copy);
 # ifdef U_KIND_MAP
@@ -224,8 +233,8 @@ void harness(void)
 #endif
 #ifdef U_COMP
     {
-        LT other; vl_seq_t m2; spif_cmp_t ab, ba;
-        VL_BUILD(other, LT, IT, CLS, VL_SL, m2, vl_pick_len(), vl_data_list);
+        LT other; vl_seq_t m2; vl_in_t vin2; spif_cmp_t ab, ba;
+        VL_INPUTS(vin2, b); VL_BUILD(other, LT, IT, CLS, VL_SL, m2, vin2, vl_data_list);
         /* comparison terminates (the unwinding assertion on the recursion is the obligation) ... */
         ab = spif_linked_list_comp(self, other);
         ba = spif_linked_list_comp(other, self);
